@@ -269,12 +269,17 @@ class EnvController(Controller):
         if self.passthrough or self.model is None or self.used >= self.budget:
             return
         evs = self.model.enabled()
-        if not evs:
+        # scenario actions whose name starts with "!" may also arrive while the loop is busy
+        acts = [a for a in self._enabled_actions() if a.name.startswith("!")]
+        if not evs and not acts:
             return
-        c = self.chooser.choose(1 + len(evs), "K1")
+        c = self.chooser.choose(1 + len(evs) + len(acts), "K1")
         if c:
             self.used += 1
-            self._fire(loop, *evs[c - 1])
+            if c <= len(evs):
+                self._fire(loop, *evs[c - 1])
+            else:
+                self._inject(loop, acts[c - 1 - len(evs)])
 
     def idle(self, loop):
         if self.passthrough or self.model is None:
